@@ -23,7 +23,7 @@ from . import _an
 PROP = "C08"
 # obligations of the properties this one is downstream of are obligations of this check too (vk.runner.collect_obligations)
 UPSTREAM = ["C05"]
-GEN_REGIONS = ["CoreKernels", "CudaKernels", "NumpyKernels"]
+GEN_REGIONS = ["CoreKernels", "CudaKernels", "NumpyKernels", "BuildQ"]
 THEOREMS = {
     # the NumPy fallbacks (translated each run) are the same reference estimator: every detrending theorem below holds for that backend too
     "SpecKitV.Props.NumpyKernelsGen": ["gen_np_win_only_auto_eq_ref", "gen_np_win_only_csd_eq_ref", "gen_np_detrend0_auto_eq_ref", "gen_np_detrend0_csd_eq_ref", "gen_np_poly_auto_eq_ref", "gen_np_poly_csd_eq_ref"],
@@ -36,10 +36,26 @@ THEOREMS = {
                            "stats_poly_csd_eq_ref", "stats_poly_auto_eq_ref",
                            "stats_win_only_csd_cuda_eq_ref", "stats_win_only_auto_cuda_eq_ref", "stats_detrend0_csd_cuda_eq_ref",
                            "stats_detrend0_auto_cuda_eq_ref", "stats_poly_csd_cuda_eq_ref", "stats_poly_auto_cuda_eq_ref"],
+    # `_build_Q` itself, TRANSLATED from core.py each run (Gen/BuildQ.lean): for every L >= 1 and order in {1,2} it returns an L x min(L, order+1)
+    # matrix with orthonormal columns spanning exactly the polynomials of degree < min(L, order+1) in the sample index; hence the detrending
+    # theorems above hold for the three backends CALLED WITH THE LIBRARY'S OWN BASIS with no hypothesis on the basis left: a polynomial trend of
+    # degree <= p changes nothing (`*_libQ_add_poly`), degree p+1 is not annihilated for L >= p+2 (`detr_libQ_next_degree`), short segments
+    # (2 <= L <= p+1: `*_libQ_short`; L = 1: `*_libQ_L1`, Numba and CUDA) give all-zero statistics
+    "SpecKitV.Props.BuildQGen": ["BuildQ.qr_spec", "BuildQ.vander_indep", "BuildQ.linspace_affine", "BuildQ.linspace_slice_affine", "BuildQ.vander_qr_isPolyBasis", "BuildQ.gen_build_Q_none", "BuildQ.gen_build_Q_isPolyBasis", "BuildQ.libQ_eq_some", "BuildQ.libQ_isPolyBasis", "BuildQ.libQ_m", "BuildQ.libQ_n", "BuildQ.libQ_ortho", "BuildQ.libQ_inSpan_mono", "BuildQ.libQ_cols_poly", "BuildQ.libQ_inSpan_poly", "BuildQ.libQ_inSpan_line", "BuildQ.libQ_next_degree_not_inSpan", "BuildQ.libQ_complete", "BuildQ.libQ_line_contract", "BuildQ.segDFT_libQ_add_poly", "BuildQ.refStats_libQ_add_poly", "BuildQ.refStatsAuto_libQ_add_poly", "BuildQ.stats_poly_csd_libQ_eq_ref", "BuildQ.stats_poly_auto_libQ_eq_ref", "BuildQ.stats_poly_csd_cuda_libQ_eq_ref", "BuildQ.stats_poly_auto_cuda_libQ_eq_ref", "BuildQ.np_poly_csd_libQ_eq_ref", "BuildQ.np_poly_auto_libQ_eq_ref", "BuildQ.stats_poly_csd_libQ_add_poly", "BuildQ.stats_poly_auto_libQ_add_poly", "BuildQ.stats_poly_csd_cuda_libQ_add_poly", "BuildQ.stats_poly_auto_cuda_libQ_add_poly", "BuildQ.np_poly_csd_libQ_add_poly", "BuildQ.np_poly_auto_libQ_add_poly", "BuildQ.detr_libQ_next_degree", "BuildQ.segDFT_libQ_next_degree_ne_zero", "BuildQ.stats_poly_csd_libQ_short", "BuildQ.stats_poly_auto_libQ_short", "BuildQ.stats_poly_csd_cuda_libQ_short", "BuildQ.stats_poly_auto_cuda_libQ_short", "BuildQ.np_poly_csd_libQ_short", "BuildQ.np_poly_auto_libQ_short", "BuildQ.stats_poly_csd_libQ_L1", "BuildQ.stats_poly_auto_libQ_L1"],
 }
-CONTRACTS = ["speckit.core._build_Q(L, p) (np.linalg.qr of the centred Vandermonde matrix) returns orthonormal columns spanning the polynomials of "
-             "degree <= p on the L-point grid (hypotheses OrthoCols / InSpan of the theorems): CHECKED numerically every run by the correspondence "
-             "for p in {1,2}, every L in 1..64 and random L up to 5000",
+CONTRACTS = ["speckit.core._build_Q(L, p) is translated from the source each run (Gen/BuildQ.lean) and PROVED (Props/BuildQGen.lean) to return orthonormal "
+             "columns spanning the polynomials of degree <= p on the L-point grid (hypotheses OrthoCols / InSpan of the detrending theorems), GIVEN the "
+             "contracts of the NumPy routines it calls, which are Lean definitions in lean/SpecKitV/Np/BuildQ.lean: "
+             "(1) Np.linspace lo hi n = np.linspace(lo, hi, n): entry i is i*((hi-lo)/(n-1)) + lo, the last entry is overwritten by hi, and for n = 1 "
+             "the single point is lo (NumPy's convention); (2) Np.ones n = np.ones(n); (3) Np.stackCols = np.stack([...], axis=1) of equally long vectors; "
+             "(4) Np.qrReducedQ V = np.linalg.qr(V, mode='reduced')[0] UP TO THE SIGN OF EACH COLUMN: classical Gram-Schmidt orthonormalisation of the "
+             "first min(rows, cols) columns of V. For a matrix whose first min(rows, cols) columns are linearly independent (proved for the Vandermonde "
+             "matrix of _build_Q) the reduced QR factor is unique up to the sign of each column - the documented non-uniqueness of QR; LAPACK's Householder "
+             "routine returns one sign choice, Gram-Schmidt the one with a positive diagonal of R; every statement proved (orthonormality, span, the projector "
+             "Q Q^T and hence every detrended segment) is invariant under these signs. For rows < cols NumPy returns the rows x rows factor of the leading "
+             "square block, as the definition does. The definitions are EXECUTED in Float against the real _build_Q every run (columns compared up to a "
+             "sign, the projector Q Q^T v exactly) for every L in 1..64 and random L up to 4096; the numerical contract check "
+             "(max|Q^T Q - I|, residual of 1, t, t^2, n, n^2 against span Q) for L in 1..64 and random L up to 5000 is kept",
              "CUDA kernels are translated from core_cuda.py source and executed only under Numba's CUDA simulator"]
 ASSUMPTIONS = ["rounding / fastmath re-association are covered by the stated forward tolerance (vk.props._an.bin_tol evaluated with the magnitudes of the "
                "record INCLUDING the trend), not by theorem",
@@ -547,7 +563,12 @@ def correspondence(ctx) -> C.Part:
         scale = SCALES[i % 3]
         x1 = r.standard_normal(N) + poly_trend(N, [scale * float(r.uniform(-1, 1)) for _ in range(max(order, 0) + 2)])
         x2 = r.standard_normal(N) + poly_trend(N, [scale * float(r.uniform(-1, 1)) for _ in range(max(order, 0) + 1)])
-        Q = core._build_Q(L, order) if order >= 1 else None
+        try:
+            Q = core._build_Q(L, order) if order >= 1 else None
+        except Exception as ex:      # a `_build_Q` that raises on a valid (L, order) is a broken correspondence, not an infrastructure error
+            P.cases += 1
+            P.disagreements.append({"op": "ref-vs-kernel", "L": L, "order": order, "impl_raised": "_build_Q: " + repr(ex)})
+            continue
         name = {-1: "_stats_win_only_", 0: "_stats_detrend0_"}.get(order, "_stats_poly_") + ("csd" if cross else "auto")
         args = [x1] + ([x2] if cross else []) + [starts, L, w, omega] + ([Q] if order >= 1 else [])
         a = seg_amp(x1, starts, L, w, order)
@@ -567,7 +588,70 @@ def correspondence(ctx) -> C.Part:
                                                  "x1": x1.tolist(), "x2": x2.tolist() if cross else None}})
         if i < 3:
             P.sample({"op": "ref-vs-kernel", "fn": name, "L": L, "K": K, "order": order, "omega": omega, "trend_scale": scale, "model": mdl})
+    # (c) `_build_Q` as TRANSLATED from the source (Gen/BuildQ.lean, executed in Float) vs the real `_build_Q`; its random choices come from a child
+    #     generator seeded by ONE integer drawn here, after everything above
+    buildq_generated_vs_real(ctx, P, np.random.default_rng(int(ctx.rng.integers(0, 2 ** 31 - 1))))
     return P
+
+
+def buildq_tol(L: int) -> float:
+    """bound on sqrt(L)*|dQ_ij| (the entries of Q are O(1/sqrt(L)), so this is a bound relative to the column norm 1).
+    Both sides orthonormalise the same L x (p+1) Vandermonde matrix V of nodes in [-1, 1], whose 2-norm condition number is below 4 for every L
+    (Gram matrix ~ L*[[1,0,1/3],[0,1/3,0],[1/3,0,1/5]]): Householder QR (LAPACK) is backward stable, |dQ| <= c*(p+1)*L*u*kappa in norm, classical
+    Gram-Schmidt with left-to-right sums of L terms loses at most c*L*u*kappa^2; (64 + 16 L) u covers both with kappa^2 < 16 (measured: below 1e-13
+    for every L <= 4096, i.e. < 2% of the bound at L = 4096).  A wrong node, sign or column changes sqrt(L)*Q_ij by at least ~1/L >= 2e-4."""
+    return (64.0 + 16.0 * L) * U
+
+
+def buildq_generated_vs_real(ctx, P: C.Part, rng: np.random.Generator) -> None:
+    from speckit.core import _build_Q
+    Ls = list(range(1, 65)) + [int(v) for v in rng.integers(65, 4097, size=ctx.scale(6, 60))] + [4096]
+    cases = [(L, order) for order in (1, 2) for L in Ls] + [(int(rng.integers(1, 40)), o) for o in (0, 3, -1, 4)]
+    for L, order in cases:
+        P.cases += 1
+        try:
+            Q = np.asarray(_build_Q(L, order))
+            raised = None
+        except Exception as ex:
+            Q, raised = None, repr(ex)
+        r = ctx.driver.ask(f"buildq {L} {order}")
+        cls = "raises" if raised else ("L<=order" if L <= order else ("L=order+1" if L == order + 1 else ("L<=64" if L <= 64 else "L>64")))
+        P.hit(f"buildq.order{order}.{cls}")
+        if raised is not None or r.strip() == "none":
+            if not (raised is not None and r.strip() == "none"):
+                P.disagreements.append({"op": "buildq", "L": L, "order": order, "impl_raised": raised, "generated_lean": r[:80],
+                                        "note": "the translated definition returns `none` exactly where the Python raises"})
+            continue
+        if r.startswith("ERR"):
+            P.disagreements.append({"op": "buildq", "L": L, "order": order, "driver": r[:200]})
+            continue
+        head, _, cells = r.partition("|")
+        shape = [int(t) for t in head.split()]
+        if shape != list(Q.shape) or Q.dtype != np.float64:
+            P.disagreements.append({"op": "buildq", "L": L, "order": order, "impl_shape": list(Q.shape), "generated_shape": shape, "dtype": str(Q.dtype)})
+            continue
+        G = np.array([C.h2f(t) for t in cells.split()], dtype=np.float64).reshape(Q.shape)
+        if L >= 2:
+            P.nontrivial.add(("buildq", order, L))
+        dots = (G * Q).sum(axis=0)
+        sg = np.where(dots < 0, -1.0, 1.0)
+        err = float(np.abs(G * sg[None, :] - Q).max() * np.sqrt(L)) if np.all(np.isfinite(G)) else float("inf")
+        tol = buildq_tol(L)
+        v = rng.standard_normal(L) * float(rng.choice([1.0, 1e3]))
+        pr = np.array(ctx.driver.floats(f"buildqproj {L} {order} " + C.arr(v)))
+        Ql = Q.astype(np.longdouble)
+        want = np.asarray(Ql @ (Ql.T @ v.astype(np.longdouble)), dtype=np.float64)
+        perr = float(np.abs(pr - want).max()) if pr.shape == want.shape and np.all(np.isfinite(pr)) else float("inf")
+        ptol = tol * (order + 1) * float(np.abs(v).max())
+        if L in (3, 17) and order == 2:
+            P.sample({"op": "buildq", "L": L, "order": order, "sqrtL_max_abs_diff_up_to_sign": err, "tol": tol, "projector_max_abs_diff": perr,
+                      "projector_tol": ptol, "signs": sg.tolist()})
+        if not (err <= tol and perr <= ptol):
+            small = L <= 8
+            P.disagreements.append({"op": "buildq", "L": L, "order": order, "sqrtL_max_abs_diff_up_to_sign": err, "tol": tol,
+                                    "projector_max_abs_diff": perr, "projector_tol": ptol, "column_signs": sg.tolist(),
+                                    "impl": Q.tolist() if small else "(L x cols matrix of _build_Q(L, order))",
+                                    "generated_lean": G.tolist() if small else "(reply of the driver op `buildq L order`)", "v_seeded": "child rng"})
 
 
 # ---------------------------------------------------------------- oracle
